@@ -94,6 +94,34 @@ def dy(r, lim=64):
 
 # ------------------------------------------------------------------ specs
 
+# round 8: fields the file HEADER does not cover (biases, offsets, rhs, weights, bounds) at unusual but legal values: not
+# representable in float32, not dyadic, huge, tiny.  C09/C10 compare the loaded model with the written one (no reference
+# arithmetic), so any finite float is an exact input here.
+ODD_FLOATS = [0.1, -1 / 3, 2.0 ** -40, 123456789.125, float(2 ** 53 - 1), -1e30, 1e30, 16777217.0, -2.0 ** 31 - 0.5]
+
+
+def bias(r, p=.12):
+    """a small dyadic rational, now and then a float that is not"""
+    return r.choice(ODD_FLOATS) if r.random() < p else dy(r)
+
+
+def odd_bounds(r, vt, dtype, for_cqm):
+    """(lb, ub) of an INTEGER / REAL variable at the edges of what `add_variable` accepts; None = left to the default"""
+    maxint = float(2 ** 53 - 1) if dtype == 'float64' else float(2 ** 24 - 1)
+    if vt == 'INTEGER':
+        pool = [(0.5, 3.75), (-2.5, 10.0), (1.75, 12.25), (-0.5, 0.5), (0.0, 0.5), (-7.25, -6.5), (2.0, 2.875), (-0.875, 0.0),
+                (-maxint, maxint), (maxint - 1, maxint), (-maxint, -maxint), (maxint, maxint), (None, None), (None, 5.5), (-3.5, None),
+                (-maxint, None), (0.1, 7.3), (-4096.5, 4096.5)]
+        if dtype == 'float64':
+            pool += [(2.0 ** 31, 2.0 ** 31 + 0.5), (-2.0 ** 40 - 0.5, 2.0 ** 52 + 0.5)]
+        if for_cqm:
+            pool += [(0.25, 0.75), (-0.5, -0.25), (3.125, 3.5)]      # no integer in between: ConstrainedQuadraticModel.add_variable keeps them
+        return r.choice(pool)
+    pool = [(-1e30, 1e30), (1e30, 1e30), (-1e30, -1e30), (-5.5, -1.25), (2.5, 2.5), (-0.0078125, -0.0078125), (None, None), (0.1, 0.3),
+            (-1e30, None), (None, 0.0), (-2.0 ** -20, 2.0 ** -30), (-123456789.125, 16777217.0), (0.0, 1e-30)]
+    return r.choice(pool)
+
+
 def spec_bqm(r, big=False):
     n = r.choice([0, 0, 1, 1, 2, 3, 4, 5, 6] + ([9, 14] if big else []))
     kind = r.choice(['range', 'range', 'ints', 'mixed', 'mixed', 'mixed'])
@@ -103,13 +131,14 @@ def spec_bqm(r, big=False):
     for _ in range(r.choice([0, 0, 1, 2, 4, 7, 12])):
         if n >= 2:
             i, j = r.sample(range(n), 2)
-            quad[(min(i, j), max(i, j))] = dy(r)
+            quad[(min(i, j), max(i, j))] = bias(r)
     return dict(kind='bqm', vartype=r.choice(['SPIN', 'BINARY']), dtype=r.choice(['float64', 'float64', 'float32', 'object']),
-                labels=labels, linear=[r.choice([0.0, dy(r), dy(r)]) for _ in range(n)],
-                quad=[(i, j, b) for (i, j), b in quad.items()], offset=r.choice([0.0, dy(r)]))
+                labels=labels, linear=[r.choice([0.0, bias(r), dy(r)]) for _ in range(n)],
+                quad=[(i, j, b) for (i, j), b in quad.items()], offset=r.choice([0.0, bias(r)]))
 
 
-def spec_qm(r, big=False):
+def spec_qm(r, big=False, for_cqm=False):
+    dtype = 'float64' if for_cqm else r.choice(['float64', 'float64', 'float32'])
     n = r.choice([0, 0, 1, 1, 2, 3, 4, 5, 6] + ([9, 14] if big else []))
     kind = r.choice(['range', 'range', 'ints', 'mixed', 'mixed', 'mixed'])
     labels = pick_labels(r, n, kind)
@@ -117,7 +146,7 @@ def spec_qm(r, big=False):
     vts = []
     for _ in range(n):
         prev = vts[-1] if vts else None
-        if prev is not None and prev[1] is not None and r.random() < .55:
+        if prev is not None and prev[1] is not None and prev[2] is not None and abs(prev[1]) < 2 ** 20 and abs(prev[2]) < 2 ** 20 and r.random() < .55:
             # a neighbour of the previous variable: same vartype, and the bounds related to its bounds -- an identical record
             # (runs of equal records), one bound shared and the other different (both directions), or both different
             vt, plb, pub = prev
@@ -131,7 +160,9 @@ def spec_qm(r, big=False):
             vts.append((vt, lb, ub))
             continue
         vt = r.choice(['BINARY', 'SPIN', 'INTEGER', 'INTEGER', 'INTEGER', 'REAL', 'REAL'])
-        if vt in ('INTEGER', 'REAL'):
+        if vt in ('INTEGER', 'REAL') and r.random() < .4:
+            vts.append((vt,) + odd_bounds(r, vt, dtype, for_cqm))
+        elif vt in ('INTEGER', 'REAL'):
             lb = r.choice([0, 0, -3, 2, -8]) if vt == 'INTEGER' else r.choice([0.0, -1.5, 0.25])
             ub = lb + r.choice([0, 1, 5, 40]) if vt == 'INTEGER' else lb + r.choice([0.0, 0.5, 3.0, 100.0])
             vts.append((vt, float(lb), float(ub)))
@@ -145,10 +176,18 @@ def spec_qm(r, big=False):
                 continue
             if i == j and vts[i][0] != 'INTEGER':
                 continue
-            quad[(min(i, j), max(i, j))] = dy(r)
-    return dict(kind='qm', dtype=r.choice(['float64', 'float64', 'float32']), labels=labels, vartypes=vts,
-                linear=[r.choice([0.0, dy(r), dy(r)]) for _ in range(n)],
-                quad=[(i, j, b) for (i, j), b in quad.items()], offset=r.choice([0.0, dy(r)]))
+            quad[(min(i, j), max(i, j))] = bias(r)
+    # bounds changed AFTER the variable was added (set_lower_bound / set_upper_bound keep fractional values on INTEGER variables)
+    rebounds = []
+    for i, (vt, lb, ub) in enumerate(vts):
+        if vt in ('INTEGER', 'REAL') and lb is not None and ub is not None and abs(lb) < 2 ** 20 and abs(ub) < 2 ** 20 and r.random() < .2:
+            import math
+            if math.floor(ub) - math.ceil(lb) >= 2:
+                rebounds.append((i, 'lower', math.ceil(lb) + r.choice([0.5, 0.25, 0.875, 1.0]))
+                                if r.random() < .5 else (i, 'upper', math.floor(ub) - r.choice([0.5, 0.25, 0.125, 1.0])))
+    return dict(kind='qm', dtype=dtype, labels=labels, vartypes=vts, rebounds=rebounds,
+                linear=[r.choice([0.0, bias(r), dy(r)]) for _ in range(n)],
+                quad=[(i, j, b) for (i, j), b in quad.items()], offset=r.choice([0.0, bias(r)]))
 
 
 def _spec_expr(r, vts, nmax=4):
@@ -157,21 +196,21 @@ def _spec_expr(r, vts, nmax=4):
     terms = []
     if n:
         for i in r.sample(range(n), r.randint(0, min(n, nmax))):
-            terms.append(('l', i, r.choice([0.0, dy(r)])))
+            terms.append(('l', i, r.choice([0.0, bias(r)])))
         for _ in range(r.choice([0, 0, 1, 2, 3])):
             i, j = r.randrange(n), r.randrange(n)
             if vts[i][0] == 'REAL' or vts[j][0] == 'REAL':
                 continue
             if i == j and vts[i][0] != 'INTEGER':
                 continue
-            terms.append(('q', i, j, dy(r)))
+            terms.append(('q', i, j, bias(r)))
     if r.random() < .5:
-        terms.append(('c', dy(r)))
+        terms.append(('c', bias(r)))
     return terms
 
 
 def spec_cqm(r, big=False):
-    base = spec_qm(r, big)
+    base = spec_qm(r, big, for_cqm=True)
     n = len(base['labels'])
     vts = base['vartypes']
     used = list(base['labels'])
@@ -190,8 +229,8 @@ def spec_cqm(r, big=False):
         soft = None
         if r.random() < .35:
             only_binary = all(vts[t[1]][0] == 'BINARY' and (t[0] == 'l' or vts[t[2]][0] == 'BINARY') for t in terms if t[0] != 'c')
-            soft = (r.choice([0.5, 2.0, 3.25]), r.choice(['linear', 'quadratic']) if only_binary else 'linear')
-        cons.append(dict(label=cl, terms=terms, sense=r.choice(['==', '<=', '>=']), rhs=dy(r), soft=soft))
+            soft = (r.choice([0.5, 2.0, 3.25, 0.1, 1 / 3, 2.0 ** -30, 2.0 ** 40 + 0.5, 1e30, 16777217.0]), r.choice(['linear', 'quadratic']) if only_binary else 'linear')
+        cons.append(dict(label=cl, terms=terms, sense=r.choice(['==', '<=', '>=']), rhs=bias(r), soft=soft))
         binaries = [i for i in range(n) if vts[i][0] == 'BINARY']
         if len(binaries) >= 2 and r.random() < .3:
             # structurally one-hot but added as an ORDINARY constraint: it must come back unmarked
@@ -207,7 +246,7 @@ def spec_cqm(r, big=False):
                 vs.append(v)
         if dl is not None and vs and not any(dl == c['label'] for c in cons) and not any(dl == d['label'] for d in discrete):
             discrete.append(dict(label=dl, variables=vs))
-    return dict(kind='cqm', labels=base['labels'], vartypes=vts, objective=_spec_expr(r, vts, nmax=n),
+    return dict(kind='cqm', labels=base['labels'], vartypes=vts, rebounds=base['rebounds'], objective=_spec_expr(r, vts, nmax=n),
                 constraints=cons, discrete=discrete)
 
 
@@ -216,14 +255,21 @@ def spec_dqm(r, big=False):
     labels = pick_labels(r, n, r.choice(['range', 'ints', 'mixed', 'mixed']))
     n = len(labels)
     cases = [r.randint(1, 4) for _ in range(n)]
-    lin = [[r.choice([0.0, dy(r)]) for _ in range(c)] for c in cases]
+    if n and r.random() < .12:
+        # round 8: the TOTAL number of cases at the uint8 / uint16 boundary of the index arrays of `to_numpy_vectors`
+        # (255 / 256 / 257), one variable carrying most of them; also a single variable with exactly 255 / 256 cases
+        total = r.choice([254, 255, 256, 257, 258])
+        rest = sum(cases[1:])
+        cases[0] = max(1, total - rest)
+        r.shuffle(cases)
+    lin = [[r.choice([0.0, bias(r, .05) if c < 50 else dy(r)]) for _ in range(c)] for c in cases]
     quad = {}
     for _ in range(r.choice([0, 1, 3, 6])):
         if n >= 2:
             u, v = r.sample(range(n), 2)
-            quad[(u, r.randrange(cases[u]), v, r.randrange(cases[v]))] = dy(r)
+            quad[(u, r.choice([0, cases[u] - 1, r.randrange(cases[u])]), v, r.choice([0, cases[v] - 1, r.randrange(cases[v])]))] = bias(r)
     return dict(kind='dqm', labels=labels, cases=cases, linear=lin, quad=[k + (b,) for k, b in quad.items()],
-                offset=r.choice([0.0, dy(r)]))
+                offset=r.choice([0.0, bias(r)]))
 
 
 def spec_dqm_large(r):
@@ -253,6 +299,10 @@ SPECS = dict(bqm=spec_bqm, qm=spec_qm, cqm=spec_cqm, dqm=spec_dqm)
 
 # ------------------------------------------------------------------ spec -> source -> model
 
+def _bounds_kw(lb, ub):
+    return ('' if lb is None else f", lower_bound={lb!r}") + ('' if ub is None else f", upper_bound={ub!r}")
+
+
 def emit(spec, name='m'):
     k = spec['kind']
     L = spec['labels']
@@ -268,17 +318,19 @@ def emit(spec, name='m'):
     elif k == 'qm':
         out.append(f"{name} = dimod.QuadraticModel(dtype=np.{spec['dtype']})")
         for l, (vt, lb, ub), b in zip(L, spec['vartypes'], spec['linear']):
-            bounds = '' if lb is None else f", lower_bound={lb!r}, upper_bound={ub!r}"
-            out.append(f"{name}.add_variable({vt!r}, {l!r}{bounds})")
+            out.append(f"{name}.add_variable({vt!r}, {l!r}{_bounds_kw(lb, ub)})")
             out.append(f"{name}.add_linear({l!r}, {b!r})")
+        for i, which, val in spec.get('rebounds', []):
+            out.append(f"{name}.set_{which}_bound({L[i]!r}, {val!r})")
         for i, j, b in spec['quad']:
             out.append(f"{name}.add_quadratic({L[i]!r}, {L[j]!r}, {b!r})")
         out.append(f"{name}.offset = {spec['offset']!r}")
     elif k == 'cqm':
         out.append(f"{name} = dimod.ConstrainedQuadraticModel()")
         for l, (vt, lb, ub) in zip(L, spec['vartypes']):
-            bounds = '' if lb is None else f", lower_bound={lb!r}, upper_bound={ub!r}"
-            out.append(f"{name}.add_variable({vt!r}, {l!r}{bounds})")
+            out.append(f"{name}.add_variable({vt!r}, {l!r}{_bounds_kw(lb, ub)})")
+        for i, which, val in spec.get('rebounds', []):
+            out.append(f"{name}.set_{which}_bound({L[i]!r}, {val!r})")
 
         def terms(ts):
             return '[' + ', '.join(f"({L[t[1]]!r}, {t[2]!r})" if t[0] == 'l' else
